@@ -429,16 +429,18 @@ def plan_jobs(cases, tier, seed=0):
     return jobs
 
 
-def replay(cases, progs, tier="quick", seed=0, procs=16):
+def replay(cases, progs, tier="quick", seed=0, procs=16, only_programs=False):
     import multiprocessing as mp
 
-    jobs = plan_jobs(cases, tier, seed)
+    jobs = plan_jobs(cases, tier, seed) if not only_programs else []
     nprog = 48 if tier == "quick" else 400
     step = max(1, len(progs) // nprog)
-    pitems = [(p, seed) for p in progs[::step][:nprog]]
+    pitems = [(p, seed) for p in (progs if only_programs else progs[::step][:nprog])]
     aitems = [(s, fl) for n in (2, 3, 4) for s in coords.signatures(n) for fl in ("generic", "momentum")]
     if tier == "quick":
         aitems = aitems[::5]
+    if only_programs:
+        aitems = []
     work = [("job", [j]) for j in jobs] + [("prog", pitems[i::16]) for i in range(16) if pitems[i::16]] + [("ak", [a]) for a in aitems]
     total = {"records": [], "calls": 0, "compiled": 0, "jobs": len(jobs), "programs": len(pitems), "awkward": len(aitems)}
     with mp.get_context("spawn").Pool(procs) as pool:
